@@ -8,7 +8,7 @@
    values), and the flag is switched off exactly when the two vectors are element-wise identical.
    The model is total over Z, so no "codes stay >= 0" side condition is needed in the statements (the real
    code needs it; the generated relabelings keep codes in [0, 2^20)). *)
-From Coq Require Import Reals List ZArith Bool.
+From Coq Require Import Reals List ZArith Bool Rpower.
 From Outrank Require Import Common.RSum MI.Model MI.Spec MI.Proofs.
 Import ListNotations.
 Open Scope R_scope.
@@ -26,16 +26,42 @@ Proof. exact core_relabel. Qed.
 Theorem C02_veq_spec : forall a b, veq a b = true <-> a = b.
 Proof. exact veq_spec. Qed.
 
+(* REMARK rather than a theorem with content of its own: this is the definition of [entry] unfolded (entry tests [veq X Y],
+   the statement uses [veq Y X]).  That the REAL code applies the self-pair rule exactly when the vectors are element-wise
+   identical rests on C02_veq_spec (what the model's test means) plus the correspondence check on the identical,
+   equal-sum-not-identical and becomes-identical families (tools/props/c02.py), which is where a sum-based or otherwise
+   weaker test in the code shows up as a model / implementation disagreement. *)
 Theorem C02_selfpair_exact : forall Y X c, entry Y X c = core Y X (c && negb (veq Y X)).
 Proof. exact selfpair_exact. Qed.
 
-Theorem C02_entry_relabel : forall (f g : Z -> Z) Y X (c : bool),
+(* Invariance of the ENTRY POINT.  With the flag off it is unconditional.  With the flag on it holds exactly OFF THE DIAGONAL,
+   i.e. when recoding does not change whether the two vectors are element-wise identical (side condition below).  The side
+   condition is necessary, not a convenience: see C02_diag_relabel_refuted — recoding only one side of an identical pair
+   legitimately switches the correction back on.  This is a documented deviation from the literal first sentence of the
+   property ("renaming the codes of either vector ... with and without correction"), forced by its second sentence. *)
+Theorem C02_entry_relabel_offdiag : forall (f g : Z -> Z) Y X (c : bool),
   length Y = length X -> (0 < length X)%nat ->
   (forall a b, In a Y -> In b Y -> f a = f b -> a = b) ->
   (forall a b, In a X -> In b X -> g a = g b -> a = b) ->
   (c = true -> (Y = X <-> map f Y = map g X)) ->
   eval_R (entry (map f Y) (map g X) c) = eval_R (entry Y X c).
 Proof. exact entry_relabel. Qed.
+
+Theorem C02_entry_relabel_flag_off : forall (f g : Z -> Z) Y X,
+  length Y = length X -> (0 < length X)%nat ->
+  (forall a b, In a Y -> In b Y -> f a = f b -> a = b) ->
+  (forall a b, In a X -> In b X -> g a = g b -> a = b) ->
+  eval_R (entry (map f Y) (map g X) false) = eval_R (entry Y X false).
+Proof. intros f g Y X Hl Hn Hf Hg. apply entry_relabel; try assumption. discriminate. Qed.
+
+(* ON / INTO the diagonal with the flag on, invariance FAILS (and must): Y = X = [0,1,0,1,2,2] scores H(Y) = ln 3, while the
+   same Y against X + 10 — an injective recoding of one side — is an ordinary pair and scores the corrected value ln 2 *)
+Theorem C02_diag_relabel_refuted :
+  exists (Y : list Z) (g : Z -> Z),
+    (0 < length Y)%nat /\ (forall a b, In a Y -> In b Y -> g a = g b -> a = b) /\
+    eval_R (entry Y Y true) = ln 3 /\ eval_R (entry Y (map g Y) true) = ln 2 /\
+    eval_R (entry Y (map g Y) true) < eval_R (entry Y Y true).
+Proof. exact diag_relabel_refuted. Qed.
 
 (* the old, sum-based test: on Y = [0,1,0,1,2,2,0,1], X = [1,0,1,0,2,2,1,0] (different vectors, equal sums) the
    shortcut fires, after X+10 it does not, and the two scores differ (1.0822 vs 0.6507 on the real code) *)
@@ -68,5 +94,7 @@ Proof. split; [exact witness_new|discriminate]. Qed.
 Print Assumptions C02_core_relabel.
 Print Assumptions C02_veq_spec.
 Print Assumptions C02_selfpair_exact.
-Print Assumptions C02_entry_relabel.
+Print Assumptions C02_entry_relabel_offdiag.
+Print Assumptions C02_entry_relabel_flag_off.
+Print Assumptions C02_diag_relabel_refuted.
 Print Assumptions C02_prefix_refuted.
